@@ -178,8 +178,10 @@ fn prim_name(t: &Ty) -> String {
 }
 
 fn gen_join_builtin(rng: &mut Rng, max: usize) -> JoinCase {
-    let n = 1 + rng.usize_below(max);
-    let m = 1 + rng.usize_below(max);
+    // (an empty side in 1 of 8 cases each; when both are empty main gets a third parameter, it needs input bits)
+    let n = if rng.chance(1, 8) { 0 } else { 1 + rng.usize_below(max) };
+    let m = if rng.chance(1, 8) { 0 } else { 1 + rng.usize_below(max) };
+    let pad = if n + m == 0 { ", z: bool" } else { "" };
     let key = match rng.below(5) {
         0 => Ty::Int(ints::U16),
         1 => Ty::Int(ints::U32),
@@ -203,7 +205,7 @@ fn gen_join_builtin(rng: &mut Rng, max: usize) -> JoinCase {
     };
     let ret_elem = if assoc { format!("(bool, {}, {})", prim_name(&ea), prim_name(&eb)) } else { format!("(bool, {})", prim_name(&ea)) };
     let src = format!(
-        "pub fn main(a: [{}; {n}], b: [{}; {m}]) -> [{ret_elem}; const {{ {n}usize + {m}usize - 1usize }}] {{\n    join(a, b)\n}}\n",
+        "pub fn main(a: [{}; {n}], b: [{}; {m}]{pad}) -> [{ret_elem}; const {{ {n}usize + {m}usize - 1usize }}] {{\n    join(a, b)\n}}\n",
         prim_name(&ea),
         prim_name(&eb)
     );
@@ -221,8 +223,8 @@ fn key_of(v: &Val, assoc: bool) -> Val {
 /// Judge one evaluation of `join(a, b)`.
 fn judge_join(case: &JoinCase, a: &[Val], b: &[Val], out: &Val) -> Result<(), String> {
     let Val::Array(entries) = out else { return Err("result is not an array".into()) };
-    if entries.len() != case.n + case.m - 1 {
-        return Err(format!("result has {} entries, expected {}", entries.len(), case.n + case.m - 1));
+    if entries.len() != (case.n + case.m).saturating_sub(1) {
+        return Err(format!("result has {} entries, expected {}", entries.len(), (case.n + case.m).saturating_sub(1)));
     }
     // expected matches: every common key once
     let mut expected: Vec<Val> = vec![];
@@ -339,8 +341,9 @@ pub fn run(ctx: &Ctx) -> i32 {
                 // ---- for-join loop through the reference interpreter
                 let case_seed = rng.next_u64();
                 let mut crng = Rng::new(case_seed);
-                let n = 1 + crng.usize_below(max_nm);
-                let m = 1 + crng.usize_below(max_nm);
+                // (an empty side in 1 of 8 cases each)
+                let n = if crng.chance(1, 8) { 0 } else { 1 + crng.usize_below(max_nm) };
+                let m = if crng.chance(1, 8) { 0 } else { 1 + crng.usize_below(max_nm) };
                 let mut cfg = GenCfg::new(if crng.bool() { Profile::PanicHeavy } else { Profile::MutationHeavy });
                 cfg.max_cost = 1500;
                 let style = crng.next_u64();
@@ -382,6 +385,10 @@ pub fn run(ctx: &Ctx) -> i32 {
                                 Val::Array(ka.iter().map(|k| elem_with_key(&mut crng, ea, *k, &prog.defs)).collect()),
                                 Val::Array(kb.iter().map(|k| elem_with_key(&mut crng, eb, *k, &prog.defs)).collect()),
                             ]);
+                            if let Some(p) = prog.main().params.get(2) {
+                                let v = crate::model::ty::gen_val(&mut crng, &p.ty, &prog.defs);
+                                tuples.last_mut().unwrap().push(v);
+                            }
                         }
                     }
                     c.add("for-join executions from exhaustive order types", tuples.len() as u64);
@@ -407,6 +414,10 @@ pub fn run(ctx: &Ctx) -> i32 {
                         Val::Array(ka.iter().map(|k| elem_with_key(&mut crng, ea, *k, &prog.defs)).collect()),
                         Val::Array(kb.iter().map(|k| elem_with_key(&mut crng, eb, *k, &prog.defs)).collect()),
                     ]);
+                    if let Some(p) = prog.main().params.get(2) {
+                        let v = crate::model::ty::gen_val(&mut crng, &p.ty, &prog.defs);
+                        tuples.last_mut().unwrap().push(v);
+                    }
                 }
                 let mut reported = false;
                 for chunk in tuples.chunks(64) {
@@ -458,7 +469,7 @@ pub fn run(ctx: &Ctx) -> i32 {
                 let ta = Ty::Array(Box::new(case.ea.clone()), case.n);
                 let tb = Ty::Array(Box::new(case.eb.clone()), case.m);
                 let rel = if case.assoc { Ty::Tuple(vec![Ty::Bool, case.ea.clone(), case.eb.clone()]) } else { Ty::Tuple(vec![Ty::Bool, case.ea.clone()]) };
-                let tret = Ty::Array(Box::new(rel), case.n + case.m - 1);
+                let tret = Ty::Array(Box::new(rel), (case.n + case.m).saturating_sub(1));
                 let kt = if case.assoc {
                     let Ty::Tuple(f) = &case.ea else { unreachable!() };
                     f[0].clone()
@@ -505,6 +516,9 @@ pub fn run(ctx: &Ctx) -> i32 {
                         .map(|(a, b)| {
                             let mut v = ty::encode_vec(&Val::Array(a.clone()), &ta, &d);
                             v.extend(ty::encode_vec(&Val::Array(b.clone()), &tb, &d));
+                            if case.n + case.m == 0 {
+                                v.push(false); // the parameter `z`
+                            }
                             v
                         })
                         .collect();
